@@ -95,18 +95,19 @@ def r18_1(ctx):
         raise AnchorError("build_work_directory: no switch over EnvironmentDirectory")
     sb, ve, rv = sw
     pk = place_key(rv["place"])
+    creators = [bb for bb, t in bw.calls() if (callee_name(t) or "").endswith("create_random_sub_directory")]
     for v, tg in ve.items():
         reg = set(explore(bw, tg, {pk: v}).keys())
-        others = set()
-        for v2, t2 in ve.items():
-            if v2 != v:
-                others |= set(explore(bw, t2, {pk: v2}).keys())
-        calls = [bb for bb, t in bw.calls() if bb in reg - others and (callee_name(t) or "").endswith("create_random_sub_directory")]
+        calls = [bb for bb in creators if bb in reg]
         if v == "UserProvided":
-            ctx.check(not calls, "subdir:" + v, bw.loc(sb), "a user provided work directory is used as it is (nothing is created in it per document)")
+            ctx.check(not calls, "subdir:" + v, bw.loc(sb), "a user provided work directory is used as it is (nothing is created in it per document)",
+                      "the UserProvided arm reaches %d create_random_sub_directory call(s)" % len(calls))
         else:
-            ctx.check(len(calls) == 1, "subdir:" + v, bw.loc(sb), "in the %s arm each document gets its own sub-directory" % v,
-                      "the %s arm creates %d per-document directories" % (v, len(calls)))
+            # every path of this arm passes a create call (the arms may share one call behind a common base path), and at most one
+            must = bool(calls) and not any(rb in set(explore(bw, tg, {pk: v}, removed_blocks=calls).keys()) for rb in bw.return_blocks())
+            once = not any(c2 in bw.reachable(s_) for c1 in calls for s_ in bw.succ(c1) for c2 in calls)
+            ctx.check(must and once, "subdir:" + v, bw.loc(sb), "in the %s arm each document gets its own sub-directory" % v,
+                      "the %s arm reaches %d per-document directory creations (on every path: %s, at most once: %s)" % (v, len(calls), must, once))
 
 
 def _uses_of_value(b, o, bb):
